@@ -92,13 +92,13 @@ type WorkerOpts struct {
 }
 
 type agg struct {
-	st      WorkerStats
-	hashes  map[uint64]struct{}
-	scheds  map[uint64]struct{}
-	opts    *WorkerOpts
-	start   time.Time
-	nviol   int
-	horizon float64
+	st       WorkerStats
+	hashes   map[uint64]struct{}
+	scheds   map[uint64]struct{}
+	opts     *WorkerOpts
+	start    time.Time
+	nviol    int
+	horizon  float64
 	det      bool
 	detLines []string
 }
